@@ -132,6 +132,11 @@ func (f *FileOutputHandler) Load(
 		reader = progress.WrapReader(contentReader)
 	}
 
+	// The parent directory may be gone (e.g. a deleted generated directory or a fresh checkout)
+	if err := os.MkdirAll(filepath.Dir(absOutputPath), 0755); err != nil {
+		return err
+	}
+
 	outputFile, err := os.Create(absOutputPath)
 	if err != nil {
 		return err
